@@ -13,7 +13,7 @@ import (
 // C05 — sequential stages emit exactly the list image, in order, whatever the
 // capacities and the interleaving of producer, stage and consumers (no cancel).
 
-var c05Stages = []string{"Map", "FMap", "Filter", "Take", "TakeWhile", "Partition", "Fold", "ForEach", "Void"}
+var c05Stages = []string{"Map", "FMap", "Filter", "Take", "TakeWhile", "Partition", "Fold", "ForEach", "Void", "ForEach/lift"}
 
 func nOuts(stage string) (vals, errs, dones int) {
 	switch stage {
@@ -21,7 +21,7 @@ func nOuts(stage string) (vals, errs, dones int) {
 		return 1, 1, 0
 	case "Partition", "fork.Partition":
 		return 2, 0, 0
-	case "ForEach", "Void", "fork.ForEach", "fork.Void":
+	case "ForEach", "Void", "fork.ForEach", "fork.Void", "ForEach/lift":
 		return 0, 0, 1
 	}
 	return 1, 0, 0
@@ -75,7 +75,12 @@ func genC05(t *testing.T) {
 						if st == "FMap" {
 							mode = "lift"
 						}
-						run(&caseT{Site: st, Stage: st, Cap: cp, Mode: mode, N: tn, Inputs: [][]int{ids(100*int(fs%9), ln)}, FSeed: fs + uint64(len(script)), Script: script, End: "complete", Monoid: "poly"})
+						in := ids(100*int(fs%9), ln)
+						c := &caseT{Site: st, Stage: st, Cap: cp, Mode: mode, N: tn, Inputs: [][]int{in}, FSeed: fs + uint64(len(script)), Script: script, End: "complete", Monoid: "poly"}
+						if st == "ForEach/lift" { // visits that return an error are still visits (ForEach has no error output)
+							c.Stage, c.Mode, c.Fail = "ForEach", "lift", in[:(ln+1)/2]
+						}
+						run(c)
 					})
 				}
 			}
@@ -94,6 +99,14 @@ func genC05(t *testing.T) {
 			mode = "lift"
 		}
 		c := &caseT{Site: st, Stage: st, Cap: cp, Mode: mode, Inputs: [][]int{ids(1000*r.IntN(50), ln)}, FSeed: r.Uint64() % 100000, End: "complete", Monoid: "poly"}
+		if st == "ForEach/lift" {
+			c.Stage, c.Mode = "ForEach", []string{"lift", "try"}[r.IntN(2)]
+			for _, x := range c.Inputs[0] {
+				if r.IntN(3) == 0 {
+					c.Fail = append(c.Fail, x)
+				}
+			}
+		}
 		if st == "Take" {
 			c.N = r.IntN(ln + 3)
 		}
